@@ -2550,6 +2550,11 @@ void read_table_column_alignments(const char * source, token * table, scratch_pa
 	while (walker) {
 		switch (walker->type) {
 			case TABLE_CELL:
+				if (counter >= kMaxTableColumns - 1) {
+					// No room to store alignment for additional columns
+					break;
+				}
+
 				align = scan_alignment_string(&source[walker->start]);
 
 				switch (align) {
